@@ -12,4 +12,9 @@ T_Offsets    == -8..8
 T_SampledPos == -12..40
 T_RangePos   == -2..10
 T_SetPos     == -4..20
+
+\* large offsets relative to the interval (grid 1/1024): interval 2/1024, offsets +-4096 and 40960;
+\* positions on and between samples around the offset
+B_Offsets    == { 4194304, -4194304, 41943040 }
+B_SampledPos == -3..9
 =============================================================================
